@@ -13,9 +13,13 @@ import KrakenModel.Model.NamePath
     `.+` in the middle  one or more characters: a non-empty joined run of elements
     `.` never matches a newline: where a `.+` run contains '\n' the result is `unsupported`
 
-  `getRepo` is GetRepo after the repair (lazy `^.+?/repositories/(.+?)/(?:_manifests|_layers|_uploads)`:
-  first "repositories" element with something before it, then up to the first later element that starts
-  with one of the three markers); `getRepoOld` is the former greedy reading (last / last).
+  `getRepo` is GetRepo after the repairs (lazy `^.+?/repositories/(.+?)/(?:_manifests|_layers|_uploads)(?:/|$)`:
+  first "repositories" element with something before it, then up to the first later element that is one
+  of the three markers); `getRepoOld` is the former greedy reading (last / last, marker as a prefix).
+
+  `layoutKinds` is NOT a model of the code: it is the registry storage layout itself (which entries
+  exist, built from which valid components), used to state and monitor "paths that do not follow the
+  layout are rejected".
 -/
 namespace KrakenModel.RegistryPaths
 open KrakenModel.Codec
@@ -195,7 +199,8 @@ def getUploadAlgoAndOffset (path : Str) : Res (Str × Str) :=
     else .noMatch
   | _ => .noMatch
 
-def isMarker (c : Str) : Bool := startsWith sManifests c || startsWith sLayers c || startsWith sUploads c
+/-- `/(?:_manifests|_layers|_uploads)(?:/|$)`: the element is exactly one of the three markers -/
+def isMarker (c : Str) : Bool := c == sManifests || c == sLayers || c == sUploads
 
 /-- elements up to (excluding) the first marker element at index ≥ 1 whose joined prefix is non-empty -/
 def firstMarker : List Str → List Str → Option (List Str)
@@ -216,10 +221,13 @@ def getRepoScan : List Str → List Str → Res Str
 
 def getRepo (path : Str) : Res Str := getRepoScan (splitOn '/' path) []
 
+/-- the former marker test: the element merely starts with one of the three names -/
+def isMarkerPrefix (c : Str) : Bool := startsWith sManifests c || startsWith sLayers c || startsWith sUploads c
+
 /-- elements up to (excluding) the LAST marker element (greedy group) -/
 def lastMarker (ds : List Str) : Option (List Str) :=
   let idx := (List.range ds.length).reverse.find? fun j =>
-    j ≥ 1 && isMarker (ds.getD j []) && !(joinSlash (ds.take j)).isEmpty
+    j ≥ 1 && isMarkerPrefix (ds.getD j []) && !(joinSlash (ds.take j)).isEmpty
   idx.map fun j => ds.take j
 
 /-- the former GetRepo (greedy): LAST `repositories` element, then up to the LAST marker -/
@@ -299,5 +307,86 @@ def parsePath (path : Str) : Res (PType × Str) :=
         | .ok _ => .ok (.blobs, sData)
         | .unsupported => .unsupported
         | .noMatch => .noMatch
+
+/-! ### the storage layout (specification, independent of the regexps) -/
+
+def validHexB (h : Str) : Bool := lowerAlnum1 h && digestOk h
+def validTagB (t : Str) : Bool := !t.isEmpty && !hasNewline t
+def validUUIDB (u : Str) : Bool := !u.isEmpty && u != sUploads
+
+/-- a storage root: something non-empty, no marker element, no newline -/
+def goodRoot (pre : List Str) : Bool :=
+  nonEmptyPrefix pre && pre.all (fun c => !isMarker c) && !hasNewline (joinSlash pre)
+
+/-- `<root>/repositories/<repo>`: the root has no element `repositories`; the repository has at least one
+element, none empty, none a marker -/
+def goodRepoDir (front : List Str) : Bool :=
+  let pre := front.takeWhile (fun c => c != sRepositories)
+  match front.dropWhile (fun c => c != sRepositories) with
+  | _ :: repo => goodRoot pre && !repo.isEmpty && repo.all (fun c => !c.isEmpty && !isMarker c) && !hasNewline (joinSlash repo)
+  | [] => false
+
+/-! one recogniser per layout entry, on the reversed element list -/
+
+/-- …/_manifests/tags , …/_manifests/revisions -/
+def leManifestsDir : List Str → Option (PType × Str)
+  | st :: m :: front => if (st = sTags ∨ st = sRevisions) ∧ m = sManifests ∧ goodRepoDir front.reverse then some (.manifests, st) else none
+  | _ => none
+
+/-- …/_manifests/tags/<tag>/current/link -/
+def leTagCurrent : List Str → Option (PType × Str)
+  | l :: c :: t :: tg :: m :: front =>
+    if l = sLink ∧ c = sCurrent ∧ validTagB t ∧ tg = sTags ∧ m = sManifests ∧ goodRepoDir front.reverse then some (.manifests, sTags) else none
+  | _ => none
+
+/-- …/_manifests/tags/<tag>/index/sha256/<digest>/link -/
+def leTagIndex : List Str → Option (PType × Str)
+  | l :: h :: s :: i :: t :: tg :: m :: front =>
+    if l = sLink ∧ validHexB h ∧ s = sSha256 ∧ i = sIndex ∧ validTagB t ∧ tg = sTags ∧ m = sManifests ∧ goodRepoDir front.reverse
+    then some (.manifests, sTags) else none
+  | _ => none
+
+/-- …/_manifests/revisions/sha256/<digest>/link -/
+def leRevision : List Str → Option (PType × Str)
+  | l :: h :: s :: rv :: m :: front =>
+    if l = sLink ∧ validHexB h ∧ s = sSha256 ∧ rv = sRevisions ∧ m = sManifests ∧ goodRepoDir front.reverse then some (.manifests, sRevisions) else none
+  | _ => none
+
+/-- …/_layers/sha256/<digest>/link|data -/
+def leLayer : List Str → Option (PType × Str)
+  | l :: h :: s :: m :: front =>
+    if (l = sLink ∨ l = sData) ∧ validHexB h ∧ s = sSha256 ∧ m = sLayers ∧ goodRepoDir front.reverse then some (.layers, l) else none
+  | _ => none
+
+/-- <root>/blobs/sha256/<first two characters>/<digest>/data -/
+def leBlob : List Str → Option (PType × Str)
+  | d :: h :: sh :: s :: b :: front =>
+    if d = sData ∧ validHexB h ∧ sh = h.take 2 ∧ s = sSha256 ∧ b = sBlobs ∧ goodRoot front.reverse then some (.blobs, sData) else none
+  | _ => none
+
+/-- …/_uploads/<id>/data|startedat -/
+def leUploadFile : List Str → Option (PType × Str)
+  | d :: u :: m :: front =>
+    if (d = sData ∨ d = sStartedat) ∧ validUUIDB u ∧ m = sUploads ∧ goodRepoDir front.reverse then some (.uploads, d) else none
+  | _ => none
+
+/-- …/_uploads/<id>/hashstates/<algorithm> -/
+def leUploadHash : List Str → Option (PType × Str)
+  | a :: hs :: u :: m :: front =>
+    if alnum1 a ∧ hs = sHashstates ∧ validUUIDB u ∧ m = sUploads ∧ goodRepoDir front.reverse then some (.uploads, sHashstates) else none
+  | _ => none
+
+/-- …/_uploads/<id>/hashstates/<algorithm>/<offset> -/
+def leUploadHashOffset : List Str → Option (PType × Str)
+  | o :: a :: hs :: u :: m :: front =>
+    if digits1 o ∧ alnum1 a ∧ hs = sHashstates ∧ validUUIDB u ∧ m = sUploads ∧ goodRepoDir front.reverse then some (.uploads, sHashstates) else none
+  | _ => none
+
+def layoutEntries : List (List Str → Option (PType × Str)) :=
+  [leManifestsDir, leTagCurrent, leTagIndex, leRevision, leLayer, leBlob, leUploadFile, leUploadHash, leUploadHashOffset]
+
+/-- the layout entries (kind, subtype) a path is a well-formed instance of -/
+def layoutKinds (path : Str) : List (PType × Str) :=
+  layoutEntries.filterMap fun f => f (splitOn '/' path).reverse
 
 end KrakenModel.RegistryPaths
